@@ -75,19 +75,28 @@ def check_guard(ctx: Ctx, sp: Guard) -> Ob:
         loops = [n for n, s in g.stmts.items() if isinstance(s, (ast.For, ast.While)) and sp.loop in unparse(s.iter if isinstance(s, ast.For) else s.test)]
         if not loops:
             return viol("R8", sp.func, inst, f"the per-layer validation loop over `{sp.loop}` no longer exists: {sp.why}", f.loc)
-        ln = loops[0]
-        # body entry nodes = successors of the loop header that are inside the body
-        body_ids = {id(x) for st in g.stmts[ln].body for x in ast.walk(st)}
-        starts = [b for b, _ in g.succ[ln] if b in g.stmts and id(g.stmts[b]) in body_ids]
-        escaped = False
+        # several loops may iterate the same collection (e.g. two `for x in node_children`): the
+        # guard holds if it holds for one of them (the env names the variables of that loop)
+        escaped = True
         reach = set()
-        for st in starts:
-            r, _ = _pruned_reach(g, sp.env, st, stop={ln})
-            reach |= r
-            # the iteration completes if it gets back to the header or leaves the function normally
-            if ln in r or EXIT in r:
-                # `continue` inside a branch that env excludes is already pruned
-                escaped = True
+        for ln in loops:
+            # body entry nodes = successors of the loop header that are inside the body
+            body_ids = {id(x) for st in g.stmts[ln].body for x in ast.walk(st)}
+            starts = [b for b, _ in g.succ[ln] if b in g.stmts and id(g.stmts[b]) in body_ids]
+            esc_here = False
+            reach_here = set()
+            for st in starts:
+                r, _ = _pruned_reach(g, sp.env, st, stop={ln})
+                reach_here |= r
+                # the iteration completes if it gets back to the header or leaves the function normally
+                if ln in r or EXIT in r:
+                    # `continue` inside a branch that env excludes is already pruned
+                    esc_here = True
+            reach |= reach_here
+            if not esc_here:
+                escaped = False
+                reach = reach_here
+                break
         start_desc = f"an iteration of the loop over `{sp.loop}`"
     raised = sorted({c for n in reach if n in g.stmts and (c := _raise_class(g.stmts[n]))})
     if not escaped:
@@ -189,6 +198,17 @@ GUARDS_QUERIES = [
     Guard("cirkit.backend.torch.queries.IntegrateQuery.__call__", "mask-batch", {"integrate_vars.dtype != torch.bool": False, "integrate_vars.shape[1] == num_vars": True, "integrate_vars_mask.shape[0] not in (1, x.shape[0])": True}, consults={"integrate_vars_mask"}, why="a mask whose batch size neither matches nor broadcasts must be rejected"),
     Guard("cirkit.backend.torch.queries.IntegrateQuery.scopes_to_mask", "out-of-scope", {"num_idxs == 0": False, "invalid_idxs": True}, consults={"invalid_idxs"}, why="variables outside the circuit scope must be rejected"),
     Guard("cirkit.backend.torch.queries.IntegrateQuery._layer_fn", "multivariate", {"isinstance(layer, TorchInputLayer)": True, "layer.num_variables > 1": True}, consults={"num_variables"}, why="multivariate input layers are refused, not silently mis-integrated"),
+]
+
+
+RG = "cirkit.templates.region_graph.graph.RegionGraph._check_structure"
+GUARDS_REGION_GRAPH = [
+    Guard(RG, "region-child-not-partition", {"isinstance(ptn, PartitionNode)": False}, loop="node_children", why="children of a region node must be partition nodes"),
+    Guard(RG, "partition-scope-differs", {"isinstance(ptn, PartitionNode)": True, "ptn.scope != node.scope": True}, loop="node_children", consults={"scope"}, why="a partition must have the scope of the region it decomposes"),
+    Guard(RG, "neither-kind", {"isinstance(node, RegionNode)": False, "isinstance(node, PartitionNode)": False}, loop="nodes_inputs", why="nodes must be region or partition nodes"),
+    Guard(RG, "partition-child-not-region", {"isinstance(rgn, RegionNode)": False}, loop="node_children", why="children of a partition node must be region nodes"),
+    Guard(RG, "not-covering", {"isinstance(node, RegionNode)": False, "isinstance(node, PartitionNode)": True, "isinstance(rgn, RegionNode)": True, "scope != node.scope": True}, loop="nodes_inputs", consults={"scope"}, why="the children of a partition must cover its scope"),
+    Guard(RG, "overlapping", {"isinstance(node, RegionNode)": False, "isinstance(node, PartitionNode)": True, "isinstance(rgn, RegionNode)": True, "scope != node.scope": False, "sum((len(sc) for sc in scopes)) != len(scope)": True}, loop="nodes_inputs", consults={"scopes"}, why="the children of a partition must be pairwise disjoint"),
 ]
 
 
